@@ -603,6 +603,12 @@ class ExtMixin(object):
             return obj
         self.err(node, "external object %s cannot be inspected" % v.name)
 
+    def x_object(self, args, kwargs, node, env):
+        if args or kwargs:
+            self.err(node, "object() takes no arguments")
+        from .symeval import Sentinel
+        return PyObjV(Sentinel())
+
     def x_callable(self, args, kwargs, node, env):
         v = args[0]
         if isinstance(v, (FuncV, DerivV, ClassV, NTClassV)):
